@@ -95,6 +95,19 @@ def scen_split(src, cond, order, abandon, src_kind, cond_kind):
     for b in order:
         advance(bool(b))
         steps += 1
+    if abandon in (1, 2):
+        # abandoning = dropping the iterator for good: close it if it can be closed and lose the reference
+        victim = it_true if abandon == 1 else it_false
+        try:
+            if hasattr(victim, 'close'):
+                victim.close()
+        except Exception as e:  # noqa
+            devs.append('close-raised:' + type(e).__name__)
+        if abandon == 1:
+            it_true = None
+        else:
+            it_false = None
+        del victim
     for which in (True, False):
         if abandon == (1 if which else 2):
             continue
